@@ -671,7 +671,7 @@ fn endpoint_family(st: &mut Stats, maxlen: usize, data_lens: &[usize], nb_dev: u
 
 pub fn run(mut cx: Ctx) -> ! {
     cx.rule = "every RFC-valid client frame script up to the length bound over a 12-symbol alphabet x payload classes is delivered to the real websocket_handler + WebsocketStream over a scripted socket under every delivery plan (whole, bytewise, every cut in the first 14 bytes, every frame boundary, one segment per frame) and every handler ending (read to the end, or drop after k messages); the non-blocking receive is driven with every placement of <=d `not yet` answers and every split of one frame header; events and every byte written are compared with a reference endpoint; states = distinct (script, payload class), transitions = frames processed; non-trivial = scripts of >=2 frames".into();
-    let maxlen = cx.pick(4, 5);
+    let maxlen = cx.pick(4, 6);
     let data_lens: Vec<usize> = if cx.quick() { vec![0, 1, 126] } else { vec![0, 1, 126, 70_000] };
     let nb_dev = cx.pick(1, 2);
     let big_maxlen = 3usize;
